@@ -213,6 +213,10 @@ def run_impl(exe, scen_text, reporter, workdir, env=None, timeout=60, nofile=Non
     except OSError:
         o.events = []
     try:
+        o.fingerprints = open(os.path.join(workdir, "fingerprints"), encoding="latin-1").read().split("\n")[:-1]
+    except OSError:
+        o.fingerprints = []
+    try:
         o.returned = int(open(os.path.join(workdir, "status")).read().split()[1])
     except (OSError, IndexError, ValueError):
         o.returned = None
